@@ -184,14 +184,6 @@ theorem sums_err (n W oy oc y u v : Nat) (hW : W = 2 ^ n) (hn : n ≤ 16) (hoy :
 
 /-! ### normalisation and clamp -/
 
-theorem near_trans (a b c e1 e2 : Rat) (h1 : Near a b e1) (h2 : Near b c e2) : Near a c (e1 + e2) := by
-  unfold Near at *
-  constructor <;> grind
-
-theorem near_mono (a b e1 e2 : Rat) (h1 : Near a b e1) (h : e1 ≤ e2) : Near a b e2 := by
-  unfold Near at *
-  constructor <;> grind
-
 /-- `(sum * (1/max)).clamp(0.0, 1.0)`: `sum ≈ S` (±Es), `|S| ≤ Ms`, the constant `≈ G` (±δ) ⇒ the result is finite, a
 pattern in `0 … 1.0` or `−0.0`, and within `2^(E−25) + Es·k + Ms·δ` of `clamp01 (S·G)` -/
 theorem norm_step (r k : Nat) (hr : FinP r) (hk : FinP k) (S G Es Ms δ : Rat)
